@@ -58,6 +58,10 @@ class Flow:
             args = [self.desc(x, env) for x in e.get("args", [])]
             if callee is None:
                 return ("call", None, args)
+            if callee.endswith("IntoIterator::into_iter") and len(args) == 1:
+                return args[0]
+            if callee.endswith("Iterator::next") and len(args) == 1:
+                return ("elem", args[0])
             if callee.endswith("::get_param") and len(e["args"]) == 2:
                 st = strip(e["args"][1])
                 if st.get("k") == "Path" and st.get("res") == "def":
@@ -74,8 +78,10 @@ class Flow:
             m = e.get("method")
             if m == "zip" and len(args) == 1:
                 return ("tuple", [recv, args[0]])
-            if m in ("as_vec", "as_ref", "clone", "to_owned", "borrow", "deref", "as_slice", "iter"):
+            if m in ("as_vec", "as_ref", "clone", "to_owned", "borrow", "deref", "as_slice", "iter", "iter_mut", "into_iter", "as_mut", "borrow_mut"):
                 return ("via", m, recv)
+            if m == "enumerate" and not args:
+                return ("enum", recv)
             return ("call", callee, [recv] + args)
         if k == "Tup":
             return ("tuple", [self.desc(x, env) for x in e["es"]])
@@ -83,6 +89,10 @@ class Flow:
             return ("field", e["name"], self.desc(e["e"], env))
         if k == "Closure":
             return ("closure", e.get("name"))
+        if k == "Unary":
+            return ("un", e.get("op"), self.desc(e["a"], env))
+        if k == "Binary":
+            return ("bin", e.get("op"), self.desc(e["a"], env), self.desc(e["b"], env))
         return ("expr", k)
 
     # -- pattern binding ---------------------------------------------------------
@@ -100,8 +110,8 @@ class Flow:
                 for s in p["ps"]:
                     self.bind(s, d, env)
             else:
-                for s in p["ps"]:
-                    self.bind(s, ("unwrap", path, d), env)
+                for i, s in enumerate(p["ps"]):
+                    self.bind(s, ("unwrap", path, d, i), env)
         elif k == "Tuple":
             ps = p["ps"]
             if d and d[0] == "param" and len(ps) == 2:
@@ -110,6 +120,9 @@ class Flow:
             elif d and d[0] == "tuple" and len(d[1]) == len(ps):
                 for s, x in zip(ps, d[1]):
                     self.bind(s, x, env)
+            elif d and d[0] == "elem" and d[1] and d[1][0] == "enum" and len(ps) == 2:
+                self.bind(ps[0], ("idx", d[1][1]), env)
+                self.bind(ps[1], ("elem", d[1][1]), env)
             else:
                 for i, s in enumerate(ps):
                     self.bind(s, ("proj", i, d), env)
@@ -117,8 +130,13 @@ class Flow:
             for s in p["ps"]:
                 self.bind(s, d, env)
         elif k == "Struct":
-            for f in p.get("fields", []):
-                self.bind(f["p"], ("field", f["name"], d), env)
+            path = p.get("path", "")
+            if path.endswith("Option::Some") or path.endswith("Result::Ok"):
+                for f in p.get("fields", []):
+                    self.bind(f["p"], d, env)
+            else:
+                for f in p.get("fields", []):
+                    self.bind(f["p"], ("field", f["name"], d), env)
         elif k == "Slice":
             for i, s in enumerate(p.get("ps", [])):
                 self.bind(s, ("index", d, i), env)
@@ -182,10 +200,14 @@ class Flow:
         elif k == "Match":
             self.visit(e["e"], env, cond)
             d = self.desc(e["e"], env)
+            if e.get("src") == "ForLoopDesugar" and e["arms"] and e["arms"][0]["p"].get("k") == "Bind":
+                cond = cond + ((("loop-enter", e.get("l")), (), True),)
             for arm in e["arms"]:
                 aenv = dict(env)
                 self.bind(arm["p"], d, aenv)
                 acond = cond + ((d, tuple(self.pat_ctors(arm["p"])), True),)
+                if e.get("src") == "ForLoopDesugar":
+                    acond = cond
                 if "g" in arm:
                     self.visit(arm["g"], aenv, acond)
                 self.visit(arm["b"], aenv, acond)
@@ -210,6 +232,8 @@ class Flow:
                 self.bind(p, ("closure_arg",), cenv)
             self.visit(e["body"], cenv, cond)
         elif k == "Loop":
+            if e.get("src") != "ForLoop":
+                cond = cond + ((("loop-enter", e.get("l")), (), True),)
             self.visit({"k": "Block", "b": e["b"]}, env, cond)
         elif k == "Let":
             self.visit(e["e"], env, cond)
